@@ -24,6 +24,8 @@ EXPLANATION = (
     "the tests that path facts show to be already decided false where it is evaluated), that branch strips "
     "exactly the suffix the writer appended, decodes with the inverse codec chain (yaml/json/encrypt vs safe_load/loads/decrypt) and stores "
     "into the container that feeds the BackupEntry field of the writer's source (deployments->cr, secrets->secret, generations->generation); "
+    "a write funnelled through one call with member name and payload in locals bound by the arms of a preceding `if` is analysed per arm (the call is sunk into the arms, "
+    "so name and payload of the same arm are paired), and a value bound in the only arm of an `if` that does not leave (the other raises) is followed through that arm; "
     "file names of different kinds never collide. "
     "R2 (wire layout): encrypt returns salt+nonce+ciphertext whose segment offsets/lengths (module constants, evaluated) equal the slices "
     "decrypt takes for the value it passes to the key derivation, as nonce and as ciphertext; both use the same key derivation, which "
@@ -136,10 +138,60 @@ def _root_param(e: ast.AST, fn: ast.AST, at: ast.AST) -> str | None:
     return None
 
 
+_LEAVES = (ast.Return, ast.Raise, ast.Continue, ast.Break)
+
+
+def _sink_into_branches(fn: ast.AST, is_site) -> ast.AST:
+    """Copy of ``fn`` in which a site statement that follows (directly, or after straight-line statements, which travel with
+    it) an `if` whose arms bind names the site reads is moved into the arms (`if c: A else: B; T; S`  ==  `if c: A; T; S else: B; T; S`;
+    an arm that leaves by return / raise / continue / break does not reach S and does not get it).  A write funnelled through one call with the member name and payload held in
+    locals is thereby analysed per branch, name and payload of the *same* branch together, exactly like the unfunnelled form."""
+    from ..astx import assigned_names
+    from ..inline import clone
+
+    fn2 = clone(fn)
+
+    def step() -> bool:
+        for node in ast.walk(fn2):
+            for fld in ("body", "orelse", "finalbody"):
+                lst = getattr(node, fld, None)
+                if not isinstance(lst, list):
+                    continue
+                for i in range(1, len(lst)):
+                    s = lst[i]
+                    if not (isinstance(s, ast.stmt) and is_site(s)):
+                        continue
+                    read = {n.id for n in ast.walk(s) if isinstance(n, ast.Name) and isinstance(n.ctx, ast.Load)}
+                    # nearest preceding `if` of the block that binds a name the site reads; the straight-line statements in
+                    # between travel with the site (they may re-bind what the arms bound)
+                    j = next((k for k in range(i - 1, -1, -1) if isinstance(lst[k], ast.If) and read & assigned_names(lst[k])), None)
+                    if j is None or any(isinstance(x, (ast.If, ast.For, ast.AsyncFor, ast.While, ast.Try, ast.With, ast.AsyncWith) + FuncNode) for x in lst[j + 1:i]):
+                        continue
+                    prev, tail = lst[j], lst[j + 1:i + 1]
+                    for arm in (prev.body, prev.orelse):
+                        if _always_leaves(arm):
+                            continue
+                        arm.extend(clone(x) for x in tail)
+                    del lst[j + 1:i + 1]
+                    return True
+        return False
+
+    n = 0
+    while step():
+        n += 1
+        if n > 50:
+            raise AnchorError(f"`{fn.name}`: branch-sinking of funnelled archive writes does not terminate")
+    _set_parents(fn2)
+    fn2._parent = parent(fn)  # type: ignore[attr-defined]
+    return fn2
+
+
 class Writer:
     def __init__(self, fn: ast.AST, funcs: dict[str, ast.AST]):
-        self.fn = fn
         helper = _tar_helper(funcs)
+        if helper:
+            fn = _sink_into_branches(fn, lambda st: isinstance(st, ast.Expr) and isinstance(st.value, ast.Call) and isinstance(st.value.func, ast.Name) and st.value.func.id == helper[0])
+        self.fn = fn
         self.entries: list[dict] = []
         sites: list[tuple[ast.Call, ast.AST, ast.AST]] = []
         for c in ast.walk(fn):
@@ -152,8 +204,8 @@ class Writer:
         if not sites:
             raise AnchorError(f"`{WRITER}` adds no files through a TarInfo helper")
         for c, name_e, data_e in sites:
-            var, suffix = _template(name_e)
             st = enclosing_stmt(c)
+            var, suffix = _template(expand(name_e, st, depth=1) if isinstance(name_e, ast.Name) else name_e)  # a local holding the member name: one level
             ops, payload = codec_chain(expand(data_e, st, depth=4))
             root = _root_param(data_e, fn, st)
             keys = None
@@ -166,6 +218,63 @@ class Writer:
         vars_ = {e["var"] for e in self.entries if e["var"] is not None}
         if len(vars_) > 1:
             raise AnchorError(f"writer file names use several name variables {sorted(vars_)}")
+
+
+def _always_leaves(stmts: list[ast.stmt]) -> bool:
+    if not stmts:
+        return False
+    s = stmts[-1]
+    if isinstance(s, _LEAVES):
+        return True
+    return isinstance(s, ast.If) and bool(s.orelse) and _always_leaves(s.body) and _always_leaves(s.orelse)
+
+
+def _guarded_def(name: str, at: ast.AST) -> tuple[ast.AST, ast.AST] | None:
+    """(value, binding statement) of `name` at statement `at` when its nearest binding sits in an `if` that precedes `at`
+    in the same block and every other arm of that `if` leaves (raise / return / continue / break): the shape
+    `if missing: raise …  else: x = v` an inlined guard-then-compute helper has.  The binding then is the only one that
+    reaches `at`, although it is written conditionally."""
+    from ..astx import assigned_names, stmt_list_of
+
+    stmt = enclosing_stmt(at)
+    loc = stmt_list_of(stmt) if stmt is not None else None
+    if loc is None:
+        return None
+    lst, i = loc
+    for prev in reversed(lst[:i]):
+        if name not in assigned_names(prev):
+            continue
+        if isinstance(prev, ast.If):
+            live = [arm for arm in (prev.body, prev.orelse) if not _always_leaves(arm)]
+            if len(live) == 1 and live[0]:
+                for s_ in reversed(live[0]):
+                    if name in assigned_names(s_):
+                        if isinstance(s_, ast.Assign) and len(s_.targets) == 1 and isinstance(s_.targets[0], ast.Name) and s_.targets[0].id == name:
+                            return s_.value, s_
+                        return None
+        return None
+    return None
+
+
+def _xexpand(e: ast.AST, at: ast.AST, depth: int = 4) -> ast.AST:
+    """`expand`, continued through bindings guarded by a leaving arm (see _guarded_def)."""
+    x = expand(e, at, depth=depth)
+    for _round in range(depth):
+        sub: dict[str, ast.AST] = {}
+        for n in ast.walk(x):
+            if isinstance(n, ast.Name) and isinstance(n.ctx, ast.Load) and n.id not in sub and reaching_def(n.id, at) is None:
+                g = _guarded_def(n.id, at)
+                if g is not None:
+                    sub[n.id] = expand(g[0], g[1], depth=depth)
+        if not sub:
+            break
+
+        class _S(ast.NodeTransformer):
+            def visit_Name(self, node):  # noqa: N802
+                return copy.deepcopy(sub[node.id]) if isinstance(node.ctx, ast.Load) and node.id in sub else node
+
+        x = _S().visit(copy.deepcopy(x))
+    return x
 
 
 class Reader:
@@ -252,7 +361,7 @@ class Reader:
                     b["dest"] = tgt.value.id
                     key = expand(tgt.slice, n, depth=1)
                     b["strip"] = _strip_of(key, self.subject)
-                    ops, _root = codec_chain(expand(val, n, depth=4))
+                    ops, _root = codec_chain(_xexpand(val, n, depth=4))
                     b["ops"] = ops
                 elif isinstance(tgt, ast.Name):
                     ops, root = codec_chain(val)
@@ -1051,6 +1160,10 @@ def _guards(order: tuple = ("enc", "meta", "sy", "y"), fallthrough: str = "", in
 _DEC = "    salt = data[:SALT_LENGTH]\n    nonce = data[SALT_LENGTH : SALT_LENGTH + NONCE_LENGTH]\n    ciphertext = data[SALT_LENGTH + NONCE_LENGTH :]\n"
 _DEC_T = "    parts = (data[:SALT_LENGTH], data[SALT_LENGTH : SALT_LENGTH + NONCE_LENGTH], data[SALT_LENGTH + NONCE_LENGTH :])\n"
 _HDR = ("NONCE_LENGTH = 12\n", "NONCE_LENGTH = 12\nHEADER_SIZE = SALT_LENGTH + NONCE_LENGTH\n")
+_WSEC = ('                if encryption_password is not None:\n                    encrypted = encrypt(secret_yaml, encryption_password)\n                    _add_bytes_to_tar(tar, f"{name}.secret.enc", encrypted)\n'
+         '                else:\n                    _add_bytes_to_tar(tar, f"{name}.secret.yaml", secret_yaml)\n')
+_WFUN = ('                if encryption_password is None:\n                    member_name, payload = f"{name}.secret.yaml", secret_yaml\n                else:\n'
+         '                    payload = encrypt(secret_yaml, encryption_password)\n                    member_name = f"{name}.secret.enc"\n                _add_bytes_to_tar(tar, member_name, payload)\n')
 TWINS: list[Twin] = [
     # ---- the decision list as `continue` guards; slices through a packed tuple; derived layout constants
     Twin("benign: reader chain as continue guards", _AR, _CHAIN, _guards(), None),
@@ -1070,6 +1183,21 @@ TWINS: list[Twin] = [
     Twin("decrypt remembers verified keys by salt", _EN, "    key = _derive_key(password, salt)\n    aesgcm = AESGCM(key)\n    return aesgcm.decrypt(nonce, ciphertext, None)", "    key = _VERIFIED.get(salt)\n    if key is None:\n        key = _derive_key(password, salt)\n    plaintext = AESGCM(key).decrypt(nonce, ciphertext, None)\n    _VERIFIED[salt] = key\n    return plaintext\n\n\n_VERIFIED: dict[bytes, bytes] = {}", "C33.R2"),
     Twin("benign: key derivation memoised on (password, salt)", _EN, "def _derive_key(password: str, salt: bytes) -> bytes:", "@functools.lru_cache(maxsize=8)\ndef _derive_key(password: str, salt: bytes) -> bytes:", None),
 
+    # ---- one funnelled write, member name and payload in locals chosen by a flipped branch (analysed per branch)
+    Twin("benign: encrypt/plain branch flipped and funnelled into one write", _AR, _WSEC, _WFUN, None),
+    Twin("benign: funnelled write, name and payload bound one by one, no else arm", _AR, _WSEC,
+         '                member_name = f"{name}.secret.yaml"\n                payload = secret_yaml\n                if encryption_password is not None:\n                    payload = encrypt(secret_yaml, encryption_password)\n'
+         '                    member_name = f"{name}.secret.enc"\n                _add_bytes_to_tar(tar, member_name, payload)\n', None),
+    Twin("funnelled write: encrypted payload under the clear-text member name", _AR, _WSEC,
+         _WFUN.replace('member_name = f"{name}.secret.enc"', 'member_name = f"{name}.secret.yaml"'), "C33.R1"),
+    Twin("funnelled write: clear payload under the encrypted member name", _AR, _WSEC,
+         _WFUN.replace('member_name, payload = f"{name}.secret.yaml", secret_yaml', 'member_name, payload = f"{name}.secret.enc", secret_yaml'), "C33.R1"),
+    Twin("funnelled write: payload bound after the branch to the clear text", _AR, _WSEC,
+         _WFUN.replace("                _add_bytes_to_tar(tar, member_name, payload)", "                payload = secret_yaml\n                _add_bytes_to_tar(tar, member_name, payload)"), "C33.R1"),
+    Twin("benign: reader guard and decrypt in an if/else with the result in a local", _AR, "                decrypted = decrypt(content, encryption_password)\n",
+         "                else:\n                    plain = decrypt(content, encryption_password)\n                decrypted = plain\n", None),
+    Twin("if/else reader: the decrypted local is not the one that is parsed", _AR, "                decrypted = decrypt(content, encryption_password)\n",
+         "                else:\n                    plain = decrypt(content, encryption_password)\n                decrypted = content\n", "C33.R1"),
     # ---- R5 breaking (the seed's form first)
     Twin("reader strips the password before decrypting", _AR, "    buf = io.BytesIO(data)\n    cr_files: dict", "    buf = io.BytesIO(data)\n    if encryption_password is not None:\n        encryption_password = encryption_password.strip()\n    cr_files: dict", "C33.R5"),
     Twin("reader drops a trailing newline through a local", _AR, "                decrypted = decrypt(content, encryption_password)", "                pw = encryption_password.rstrip(\"\\n\")\n                decrypted = decrypt(content, pw)", "C33.R5"),
